@@ -247,12 +247,12 @@ pub(crate) fn unit(
                         ));
                     }
 
-                    last = Some(name);
+                    last = Some((name, prefix));
                 }
             }
             OP_POWER => {
                 let (kind, span) = match (last.take(), nodes.next_node()) {
-                    (Some(last), Some(node)) if *node.value() == NUMBER => {
+                    (Some((last, prefix)), Some(node)) if *node.value() == NUMBER => {
                         let span = node.span();
 
                         let power = match str::parse::<i32>(&source[span.range()]) {
@@ -260,7 +260,27 @@ pub(crate) fn unit(
                             Err(error) => return Err(Error::new(*span, BadNumber { error })),
                         };
 
-                        compound.update_power(last, power * current);
+                        // The unit has already been counted once with the
+                        // current sign, so the exponent contributes the rest
+                        // on top of whatever the compound already holds.
+                        let rest = match power.checked_sub(1).and_then(|p| p.checked_mul(current)) {
+                            Some(rest) => rest,
+                            None => return Err(Error::new(*span, IllegalUnitNumber)),
+                        };
+
+                        if rest != 0 {
+                            if let Err(expected) = compound.update(last, rest, prefix) {
+                                return Err(Error::new(
+                                    *span,
+                                    PrefixMismatch {
+                                        unit: source[span.range()].into(),
+                                        expected,
+                                        actual: prefix,
+                                    },
+                                ));
+                            }
+                        }
+
                         continue;
                     }
                     (_, Some(node)) => (*node.value(), *node.span()),
